@@ -76,7 +76,7 @@ pub fn worker_main(scn: &dyn Scenario, thorough: bool, seed: u64, w: usize, n: u
         if rep.nontrivial {
             distinct.insert(rep.distinct);
         }
-        if samples.len() < 2 && rep.nontrivial {
+        if (samples.len() < 2 && rep.nontrivial) || samples.is_empty() {
             samples.push(rep.sample.clone());
         }
         if !rep.violations.is_empty() {
